@@ -19,10 +19,10 @@ class Inspections(PipelineBase):
         return ok(self.b.metablock(self.b.wrap_link(self.mk_link(run,ld)),[]))
     def mk_args(self,run):
         b=self.b; F0,OWN=0,1
-        osig=SigD(OWN,z3.BitVec('omb',8),z3.Bool('oin'),z3.Bool('oov')); run.solver.add(z3.ULE(tbv(osig.made_by),2))
+        osig=SigD(OWN,z3.BitVec('omb',8),z3.Bool('oin'),z3.Bool('oov')); run.add(z3.ULE(tbv(osig.made_by),2))
         expired=bool(run.pick(2,'expired'))
         present=bool(run.pick(2,'link_present'))
-        lsig=SigD(F0,z3.BitVec('lmb',8),z3.Bool('lin'),z3.Bool('lov')); run.solver.add(z3.ULE(tbv(lsig.made_by),2))
+        lsig=SigD(F0,z3.BitVec('lmb',8),z3.Bool('lin'),z3.Bool('lov')); run.add(z3.ULE(tbv(lsig.made_by),2))
         rk=run.pick(4,'step_rules')
         step=StepD('s0',1,[F0])
         if rk==1: step.exp_prod=[b.rule('Disallow','*')]; step.exp_prod_json=[['DISALLOW','*']]
